@@ -878,7 +878,10 @@ func (ss *SpecSet) ParseSpecText(lines []string, wheres []string, pkg string) er
 			}
 		case "at":
 			// at <label>: use lemma(args) | assert expr | assume expr
-			j := strings.Index(rc.text, ":")
+			j := strings.Index(rc.text, ": ")
+			if j < 0 {
+				j = strings.Index(rc.text, ":")
+			}
 			if j < 0 || cur == nil {
 				return fmt.Errorf("%s: bad at clause", rc.where)
 			}
